@@ -1279,6 +1279,34 @@ where
     > {
         let agg_id = self.role_try_from(agg_id)?;
 
+        // Validate the shape of the input share and public share against this instance before
+        // indexing into them. Shares decoded from the wire always pass; this rejects objects
+        // produced for another role or by a differently parameterized instance.
+        let shape_ok = match msg {
+            Prio3InputShare::Leader {
+                measurement_share,
+                proofs_share,
+                ..
+            } => {
+                agg_id == 0
+                    && measurement_share.len() == self.typ.input_len()
+                    && proofs_share.len() == self.typ.proof_len() * self.num_proofs()
+            }
+            Prio3InputShare::Helper { .. } => agg_id != 0,
+        } && msg.joint_rand_blind().is_some() == (self.typ.joint_rand_len() > 0)
+            && match public_share.joint_rand_parts.as_ref() {
+                Some(parts) => {
+                    self.typ.joint_rand_len() > 0 && parts.len() == self.num_aggregators()
+                }
+                None => self.typ.joint_rand_len() == 0,
+            };
+        if !shape_ok {
+            return Err(VdafError::Uncategorized(
+                "input share or public share does not match the VDAF instance or aggregator id"
+                    .to_string(),
+            ));
+        }
+
         let (measurement_share, proofs_share) = match msg {
             Prio3InputShare::Leader {
                 measurement_share,
@@ -1425,7 +1453,11 @@ where
             }
 
             if self.typ.joint_rand_len() > 0 {
-                let joint_rand_seed_part = share.joint_rand_part.unwrap();
+                let Some(joint_rand_seed_part) = share.joint_rand_part else {
+                    return Err(VdafError::Uncategorized(
+                        "verifier share is missing the joint randomness part".to_string(),
+                    ));
+                };
                 joint_rand_parts.push(joint_rand_seed_part);
             }
 
@@ -1465,13 +1497,15 @@ where
     ) -> Result<VerifyTransition<Self, SEED_SIZE, 16>, VdafError> {
         if self.typ.joint_rand_len() > 0 {
             // Check that the joint randomness was correct.
-            if step
-                .joint_rand_seed
-                .as_ref()
-                .unwrap()
-                .ct_ne(msg.joint_rand_seed.as_ref().unwrap())
-                .into()
-            {
+            let (Some(state_seed), Some(message_seed)) =
+                (step.joint_rand_seed.as_ref(), msg.joint_rand_seed.as_ref())
+            else {
+                return Err(VdafError::Uncategorized(
+                    "verify state or verifier message is missing the joint randomness seed"
+                        .to_string(),
+                ));
+            };
+            if state_seed.ct_ne(message_seed).into() {
                 return Err(VdafError::Uncategorized(
                     "joint randomness mismatch".to_string(),
                 ));
